@@ -7,6 +7,9 @@ from ..observe import run as brun
 PID = 'C03'
 
 
+_LAST = {}
+
+
 def vdesc_set(vs, n):
     """Decode the returned vertex description: 0/1 (or bool) mask of length 4^k, or a strictly
     increasing index list.  Returns a set or None when it is neither."""
@@ -84,6 +87,7 @@ def check_mask(r, k, mask, t, dtype='bool', expS=None, lm=False):
             if vset is None or vset != O.has_arcs(G):
                 r.v(pre + 'vertex-description-differs-from-vertices-with-arcs', 'mask', case, sorted(O.has_arcs(G)), core._j(vs))
             code = sum(1 << v for v in O.has_arcs(G)) if len(G) == n and n <= 64 else None
+    _LAST['case'] = {'k': k, 'mask': sorted(mask)[:64], 't': t, 'dtype': dtype, 'expected': sorted(S)[:64] if S else 'ValueError', 'observed': tag}
     r.out.add((t, len(S)))
     if lm and t >= 2 and mask:
         check_lm(r, k, mask, t, S, case, pre)
@@ -177,7 +181,7 @@ def _w_g2(chunk):
                 r.ctr['rounds_%d' % min(O.trimming_rounds(mask, 2, t), 6)] += 1
             r.ctr['empty_result' if not S else 'nonempty_result'] += 1
     r.mx['codes'] = 0
-    r.samples = [{'k': 2, 'mask': '0x%04x' % (hi - 1), 'thresholds': [1, 2, 3, 4], 'dtypes': ['bool', 'int']}]
+    r.samples = [_LAST.get('case')]
     r.codes = codes
     return r
 
